@@ -17,7 +17,7 @@ def bounds(tier):
             'symbolic_flags_per_cell': 2, 'id_length': 1}
 
 
-def mk(variants, flagsets, sym_flags=(), edstart='present', pre_op=None, started=None, T=60, tag='', unique=True):
+def mk(variants, flagsets, sym_flags=(), edstart='present', pre_op=None, started=None, T=60, tag='', unique=True, stamps=None):
     N = len(variants)
     flags = {}
     for i, fs in enumerate(flagsets):
@@ -25,6 +25,9 @@ def mk(variants, flagsets, sym_flags=(), edstart='present', pre_op=None, started
             flags['%s%d' % (k, i)] = True
     P = {'N': N, 'variants': list(variants), 'flags': flags, 'edstart': edstart, 'pre_op': pre_op,
          'started': started or [None] * N}
+    if stamps:
+        P['edstamp'], P['ststamp'] = stamps
+        tag = (tag + '-' if tag else '') + 'zone-ed%d-st%d' % stamps
     sym = [('s%d' % i, 'str') for i in range(N)] + [('i0', 'str'), ('c0', 'str'), ('c1', 'str'), ('c2', 'str')]
     strs = ['s%d' % i for i in range(N)]
     if pre_op and pre_op != 'roreplace':
@@ -79,6 +82,11 @@ def cells(tier):
     out.append(mk(['SD', 'SD'], [ALL, []], pre_op='append-timed', unique=False, T=T))
     out.append(mk(['SD', 'TT+MT'], [['sl'], ALL], pre_op='roreplace', T=T))
     out.append(mk(['none', 'SD', 'MT'], [ALL, [], ['sl', 'in']], pre_op='roreplace', edstart='absent', T=T))
+    # zone designators: an aware roEdStart next to naive story stamps, the reverse, and both aware
+    for stamps in ((3, 1), (0, 4), (3, 4)):
+        out.append(mk(['SD', 'TT+MT'], [ALL, []], started=[None, 1], stamps=stamps, T=T))
+        out.append(mk(['SD', 'none', 'MT'], [['sl'], [], ALL], started=[1, None, None], stamps=stamps, T=T))
+        out.append(mk(['SD', 'TT+MT'], [['sl'], ALL], pre_op='replace-timed', started=[None, 1], stamps=stamps, T=T))
     # states reached by merges that insert / append / replace / send stories with or without timing
     for op in ('append-timed', 'append-untimed', 'insert-timed', 'insert-untimed', 'replace-timed',
                'replace-untimed', 'send-timed', 'send-untimed', 'eainsert-untimed', 'eainsert-timed'):
